@@ -11,7 +11,7 @@ ALL_ATTRS = [C.CKA_CLASS, C.CKA_TOKEN, C.CKA_PRIVATE, C.CKA_LABEL, C.CKA_APPLICA
              C.CKA_BASE, C.CKA_PRIME_BITS, C.CKA_VALUE_BITS, C.CKA_VALUE_LEN, C.CKA_EXTRACTABLE, C.CKA_LOCAL, C.CKA_NEVER_EXTRACTABLE,
              C.CKA_ALWAYS_SENSITIVE, C.CKA_KEY_GEN_MECHANISM, C.CKA_MODIFIABLE, C.CKA_COPYABLE, C.CKA_DESTROYABLE, C.CKA_EC_PARAMS, C.CKA_EC_POINT,
              C.CKA_ALWAYS_AUTHENTICATE, C.CKA_WRAP_WITH_TRUSTED, C.CKA_WRAP_TEMPLATE, C.CKA_UNWRAP_TEMPLATE, C.CKA_ALLOWED_MECHANISMS]
-_PLAIN = [a for a in ALL_ATTRS if a not in (C.CKA_WRAP_TEMPLATE, C.CKA_UNWRAP_TEMPLATE)]
+_PLAIN = [a for a in ALL_ATTRS if a not in (C.CKA_WRAP_TEMPLATE, C.CKA_UNWRAP_TEMPLATE)] + [C.CKA_PUBLIC_KEY_INFO]
 
 
 def read_objects(p, s, handles, attrs=None):
